@@ -24,6 +24,9 @@ type Txn struct {
 	Name  string
 	Ops   []refmodel.Op
 	Class string
+	// Late transactions were added to an alphabet after its first version: where Config.LateDepth is set, they are tried from
+	// the states of depth <= LateDepth only, and the states they lead to are expanded when reached within LateDepth steps.
+	Late bool
 	// Raw, when set, is sent instead of Ops (ill-formed transactions for C02/C19).
 	Raw []json.RawMessage
 }
@@ -71,6 +74,7 @@ type Config struct {
 	// OnState is called once per distinct state with a live system in that state.
 	OnState   func(hist []int, s *sys.Sys, st *refmodel.DB)
 	MaxStates int
+	LateDepth int // 0: no restriction
 }
 
 func accepted(res []ovsdb.OperationResult, nops int, rpcErr error) bool {
@@ -161,6 +165,7 @@ func Explore(r *ev.Run, cfg Config) {
 	all := append(append([]Txn{}, cfg.Alphabet...), cfg.Probes...)
 	for depth := 0; depth <= cfg.Depth && len(frontier) > 0; depth++ {
 		var next []node
+		r.Add(fmt.Sprintf("frontier_depth_%d", depth), int64(len(frontier)))
 		par.For(len(frontier), r.Expired, func(i int) {
 			n := frontier[i]
 			if cfg.OnState != nil {
@@ -170,6 +175,9 @@ func Explore(r *ev.Run, cfg Config) {
 			for ti, t := range all {
 				if r.Expired() {
 					return
+				}
+				if t.Late && cfg.LateDepth > 0 && depth > cfg.LateDepth {
+					continue
 				}
 				var e *Edge
 				func() {
@@ -191,7 +199,7 @@ func Explore(r *ev.Run, cfg Config) {
 				if e == nil {
 					continue
 				}
-				if ti < len(cfg.Alphabet) && e.Accepted && depth < cfg.Depth {
+				if ti < len(cfg.Alphabet) && e.Accepted && depth < cfg.Depth && !(t.Late && cfg.LateDepth > 0 && depth >= cfg.LateDepth) {
 					h := canon.Hash(e.Post.Dump() + "#" + e.PostRefs)
 					mu.Lock()
 					if !seen[h] && (cfg.MaxStates == 0 || len(seen) < cfg.MaxStates) {
